@@ -71,4 +71,284 @@ example : flexPush (.vec u8 L8) L8 (.vecArr [[1],[2],[3],[4],[5],[6]]) ⟨0, [25
 
 /-- non-vacuity: a full `FlatVec<u16,u16>` refuses the push and is unchanged -/
 example : vecOp ⟨L16, 2, 2, 2⟩ [2,0, 1,0, 2,0, 9] 2 (.push [3,0]) = .ok ⟨.full, [2,0, 1,0, 2,0, 9]⟩ := by decide
+
+theorem bind_ret2 {α β} {r : Res α} {c : OpRet} {g : α → Res β} {f : β → Bytes} {o : OpOut}
+    (h : (r.bind fun a => (g a).bind fun b => Res.ok ⟨c, f b⟩) = .ok o) : o.ret = c := by
+  cases r with
+  | ok a => rw [Res.bind_ok] at h; exact bind_ret h
+  | err e => simp at h
+  | fault f => simp at h
+
+/-- **C13 (FlatVec / FlatString), every operation.** Whatever the operation — `push`, `pop`, `push_slice`, `extend_from_iter`,
+`truncate`, `clear`, `remove`, `swap_remove`, `resize`, an indexed write, `push_str` — if it reports a refusal (`Err` / `full`,
+`None` from `pop`, or the out-of-range panic of an indexed operation), not a single byte of the container has changed. -/
+theorem C13_vec_any_refusal_unchanged (g : VecGeo) (bs : Bytes) (len : Nat) (op : Op) (o : OpOut)
+    (h : vecOp g bs len op = .ok o) (hr : o.ret = .full ∨ o.ret = .none ∨ o.ret = .panic) : o.bytes = bs := by
+  have no {c : OpRet} (hc : o.ret = c) (h1 : c ≠ .full) (h2 : c ≠ .none) (h3 : c ≠ .panic) : False := by
+    rcases hr with hr | hr | hr <;> rw [hc] at hr
+    · exact h1 hr
+    · exact h2 hr
+    · exact h3 hr
+  cases op <;> simp only [vecOp] at h
+  case push x =>
+    split at h
+    · cases h; rfl
+    · exact (no (bind_ret (f := fun b => b) h) (by simp) (by simp) (by simp)).elim
+  case pop =>
+    split at h
+    · cases h; rfl
+    · exact (no (bind_ret (f := fun b => b) h) (by simp) (by simp) (by simp)).elim
+  case pushSlice xs =>
+    split at h
+    · cases h; rfl
+    · split at h <;> exact (no (bind_ret (f := fun b => b) h) (by simp) (by simp) (by simp)).elim
+  case pushBytes xs =>
+    split at h
+    · cases h; rfl
+    · exact (no (bind_ret2 (f := fun b => b) h) (by simp) (by simp) (by simp)).elim
+  case extend xs =>
+    split at h
+    · cases h; rfl
+    · exact (no (bind_ret (f := fun b => b) h) (by simp) (by simp) (by simp)).elim
+  case trunc n =>
+    split at h
+    · cases h; rfl
+    · exact (no (bind_ret (f := fun b => b) h) (by simp) (by simp) (by simp)).elim
+  case clear =>
+    split at h
+    · cases h; rfl
+    · exact (no (bind_ret (f := fun b => b) h) (by simp) (by simp) (by simp)).elim
+  case remove i =>
+    split at h
+    · exact (no (bind_ret2 (f := fun b => b) h) (by simp) (by simp) (by simp)).elim
+    · cases h; rfl
+  case swapRm i =>
+    split at h
+    · exact (no (bind_ret2 (f := fun b => b) h) (by simp) (by simp) (by simp)).elim
+    · cases h; rfl
+  case resize n x =>
+    split at h
+    · split at h
+      · cases h; rfl
+      · exact (no (bind_ret (f := fun b => b) h) (by simp) (by simp) (by simp)).elim
+    · split at h
+      · exact (no (bind_ret (f := fun b => b) h) (by simp) (by simp) (by simp)).elim
+      · cases h; rfl
+  case set i x =>
+    split at h
+    · exact (no (bind_ret (f := fun b => b) h) (by simp) (by simp) (by simp)).elim
+    · cases h; rfl
+  all_goals cases h
+
+/-- **C13 (FlexVec, `pop` on an empty vector).** `Err(EmptyError)` leaves every byte as it was. -/
+theorem C13_flex_pop_empty_unchanged (it : Ty) (l : LenTy) (data : Slice) (b : Bytes) (h : flexPop it l data = .ok (b, false)) :
+    b = data.bytes := by
+  unfold flexPop at h
+  cases hs : flexSlots it l (data.len + 1) 0 data with
+  | ok slots =>
+    rw [hs, Res.bind_ok] at h
+    split at h
+    · cases h; rfl
+    · cases ht : flexTruncate it l (slots.length - 1) data with
+      | ok b' => rw [ht, Res.bind_ok] at h; cases h
+      | err e => rw [ht] at h; simp at h
+      | fault f => rw [ht] at h; simp at h
+  | err e => rw [hs] at h; simp at h
+  | fault f => rw [hs] at h; simp at h
+
+/-- non-vacuity: `pop` on an empty `FlatVec<u16,u16>`, `remove(5)` on one of two elements -/
+example : vecOp ⟨L16, 2, 2, 2⟩ [0,0, 1,0, 2,0] 0 .pop = .ok ⟨.none, [0,0, 1,0, 2,0]⟩ := by decide
+example : vecOp ⟨L16, 2, 2, 2⟩ [2,0, 1,0, 2,0] 2 (.remove 5) = .ok ⟨.panic, [2,0, 1,0, 2,0]⟩ := by decide
+end FV.Props
+namespace FV.Props
+open FV
+def refusal : OpRet → Bool
+  | .full | .none | .panic | .empty | .noitem | .novariant => true
+  | _ => false
+
+theorem vecOp_refusal_unchanged (g : VecGeo) (bs : Bytes) (len : Nat) (op : Op) (o : OpOut)
+    (h : vecOp g bs len op = .ok o) (hr : refusal o.ret = true) : o.bytes = bs := by
+  have no {c : OpRet} (hc : o.ret = c) (h1 : refusal c = false) : False := by
+    rw [hc, h1] at hr; cases hr
+  cases op <;> simp only [vecOp] at h
+  case push x =>
+    split at h
+    · cases h; rfl
+    · exact (no (bind_ret (f := fun b => b) h) rfl).elim
+  case pop =>
+    split at h
+    · cases h; rfl
+    · exact (no (bind_ret (f := fun b => b) h) rfl).elim
+  case pushSlice xs =>
+    split at h
+    · cases h; rfl
+    · split at h <;> exact (no (bind_ret (f := fun b => b) h) rfl).elim
+  case pushBytes xs =>
+    split at h
+    · cases h; rfl
+    · exact (no (bind_ret2 (f := fun b => b) h) rfl).elim
+  case extend xs =>
+    split at h
+    · cases h; rfl
+    · exact (no (bind_ret (f := fun b => b) h) rfl).elim
+  case trunc n =>
+    split at h
+    · cases h; rfl
+    · exact (no (bind_ret (f := fun b => b) h) rfl).elim
+  case clear =>
+    split at h
+    · cases h; rfl
+    · exact (no (bind_ret (f := fun b => b) h) rfl).elim
+  case remove i =>
+    split at h
+    · exact (no (bind_ret2 (f := fun b => b) h) rfl).elim
+    · cases h; rfl
+  case swapRm i =>
+    split at h
+    · exact (no (bind_ret2 (f := fun b => b) h) rfl).elim
+    · cases h; rfl
+  case resize n x =>
+    split at h
+    · split at h
+      · cases h; rfl
+      · exact (no (bind_ret (f := fun b => b) h) rfl).elim
+    · split at h
+      · exact (no (bind_ret (f := fun b => b) h) rfl).elim
+      · cases h; rfl
+  case set i x =>
+    split at h
+    · exact (no (bind_ret (f := fun b => b) h) rfl).elim
+    · cases h; rfl
+  all_goals cases h
+theorem reassemble (bs : Bytes) (off len : Nat) : bs.take off ++ (bs.drop off).take len ++ bs.drop (off + len) = bs := by
+  rw [List.append_assoc]
+  have : (bs.drop off).take len ++ bs.drop (off + len) = bs.drop off := by
+    rw [← List.drop_drop]; exact List.take_append_drop len (bs.drop off)
+  rw [this]; exact List.take_append_drop off bs
+
+theorem refusal_retOfRes (x : Except Err Unit) : refusal (retOfRes x) = false := by
+  cases x with
+  | ok u => cases u; rfl
+  | error e => rfl
+
+theorem vec_dispatch (r : Res VecGeo) (rl : Res Nat) (bs : Bytes) (op : Op) (o : OpOut)
+    (h : (r.bind fun g => rl.bind fun len => vecOp g bs len op) = .ok o) (hr : refusal o.ret = true) : o.bytes = bs := by
+  cases r with
+  | ok g =>
+    rw [Res.bind_ok] at h
+    cases rl with
+    | ok len => rw [Res.bind_ok] at h; exact vecOp_refusal_unchanged g bs len op o h hr
+    | err e => simp at h
+    | fault f => simp at h
+  | err e => simp at h
+  | fault f => simp at h
+
+theorem ret_of_bind {α} {r : Res α} {c : α → OpRet} {f : α → Bytes} {o : OpOut}
+    (h : (r.bind fun a => Res.ok ⟨c a, f a⟩) = .ok o) : ∃ a, r = .ok a ∧ o.ret = c a ∧ o.bytes = f a := by
+  cases r with
+  | ok a => simp only [Res.bind_ok, Res.ok.injEq] at h; exact ⟨a, rfl, by rw [← h], by rw [← h]⟩
+  | err e => simp at h
+  | fault f => simp at h
+
+theorem setFieldAt_ret (ds : List Dict) (base i : Nat) (x bs : Bytes) (o : OpOut) (h : setFieldAt ds base i x bs = .ok o) :
+    refusal o.ret = false := by
+  unfold setFieldAt at h
+  split at h
+  · split at h
+    · rw [bind_ret (f := fun b => b) h]; rfl
+    · cases h
+  · cases h
+
+/-- **C13, every operation on every value.** Whatever operation is applied to whatever value — a vector or string operation, a
+FlexVec `pop`, a write through a variant's fields, an operation on the `i`-th item of a FlexVec, nested to any depth — if it is
+refused without an error value (`full`, `None`, the out-of-range panic, `EmptyError`, no such item, not that variant), every byte
+of the value is as before. (Refusals that carry an `Error` — `push` / `assign_in_place` — are the `flex_push` theorems above and C18.) -/
+theorem C13_any_refusal_unchanged (op : Op) : ∀ (t : Ty) (s : Slice) (o : OpOut), applyOp op t s = .ok o → refusal o.ret = true →
+    o.bytes = s.bytes := by
+  induction op with
+  | item i op ih =>
+    intro t s o h hr
+    cases t <;> simp only [applyOp] at h <;> try (cases h; done)
+    case flex it l =>
+      cases hrange : flexItemRange l (max l.size it.dict.align) (floorMul s.len (max l.align it.dict.align) + 1) i 0
+          (s.take (floorMul s.len (max l.align it.dict.align))) with
+      | ok r =>
+        rw [hrange, Res.bind_ok] at h
+        cases r with
+        | none => cases h; rfl
+        | some p =>
+          obtain ⟨off, len⟩ := p
+          simp only at h
+          cases hin : applyOp op it ⟨s.addr + off, (s.bytes.drop off).take len⟩ with
+          | ok o' =>
+            rw [hin, Res.bind_ok] at h
+            cases h
+            have := ih it _ o' hin hr
+            simp only at this ⊢
+            rw [this]; exact reassemble s.bytes off len
+          | err e => rw [hin] at h; simp at h
+          | fault f => rw [hin] at h; simp at h
+      | err e => rw [hrange] at h; simp at h
+      | fault f => rw [hrange] at h; simp at h
+    case vec et l => exact vec_dispatch _ _ _ _ _ h hr
+    case str l => exact vec_dispatch _ _ _ _ _ h hr
+  | assign i =>
+    intro t s o h hr
+    simp only [applyOp] at h
+    obtain ⟨a, _, hret, _⟩ := ret_of_bind h
+    rw [hret, refusal_retOfRes] at hr; cases hr
+  | setField v i x =>
+    intro t s o h hr
+    cases t <;> simp only [applyOp] at h <;> try (cases h; done)
+    case ustruct fs last => rw [setFieldAt_ret _ _ _ _ _ _ h] at hr; cases hr
+    case uenum tag vs =>
+      cases ht : tag.readU s with
+      | ok tg =>
+        rw [ht, Res.bind_ok] at h
+        split at h
+        · cases h; rfl
+        · rw [setFieldAt_ret _ _ _ _ _ _ h] at hr; cases hr
+      | err e => rw [ht] at h; simp at h
+      | fault f => rw [ht] at h; simp at h
+    case vec et l => exact vec_dispatch _ _ _ _ _ h hr
+    case str l => exact vec_dispatch _ _ _ _ _ h hr
+  | fpush i =>
+    intro t s o h hr
+    cases t <;> simp only [applyOp] at h <;> try (cases h; done)
+    case flex it l =>
+      obtain ⟨a, _, hret, _⟩ := ret_of_bind h
+      rw [hret, refusal_retOfRes] at hr; cases hr
+    case vec et l => exact vec_dispatch _ _ _ _ _ h hr
+    case str l => exact vec_dispatch _ _ _ _ _ h hr
+  | fpop =>
+    intro t s o h hr
+    cases t <;> simp only [applyOp] at h <;> try (cases h; done)
+    case flex it l =>
+      obtain ⟨⟨b, r⟩, hp, hret, hb⟩ := ret_of_bind (c := fun (p : Bytes × Bool) => if p.2 then OpRet.ok else OpRet.empty)
+        (f := fun (p : Bytes × Bool) => p.1 ++ s.bytes.drop (floorMul s.len (max l.align it.dict.align))) h
+      cases r with
+      | true => rw [hret] at hr; cases hr
+      | false =>
+        have := C13_flex_pop_empty_unchanged it l _ b hp
+        rw [hb, this]; exact List.take_append_drop _ _
+    case vec et l => exact vec_dispatch _ _ _ _ _ h hr
+    case str l => exact vec_dispatch _ _ _ _ _ h hr
+  | ftrunc n =>
+    intro t s o h hr
+    cases t <;> simp only [applyOp] at h <;> try (cases h; done)
+    case flex it l => rw [bind_ret (f := fun b => b ++ s.bytes.drop (floorMul s.len (max l.align it.dict.align))) h] at hr; cases hr
+    case vec et l => exact vec_dispatch _ _ _ _ _ h hr
+    case str l => exact vec_dispatch _ _ _ _ _ h hr
+  | fclear =>
+    intro t s o h hr
+    cases t <;> simp only [applyOp] at h <;> try (cases h; done)
+    case flex it l => rw [bind_ret (f := fun b => b ++ s.bytes.drop (floorMul s.len (max l.align it.dict.align))) h] at hr; cases hr
+    case vec et l => exact vec_dispatch _ _ _ _ _ h hr
+    case str l => exact vec_dispatch _ _ _ _ _ h hr
+  | _ =>
+    intro t s o h hr
+    cases t <;> simp only [applyOp] at h <;> first | (cases h; done) | exact vec_dispatch _ _ _ _ _ h hr
+
+/-- non-vacuity: `pop` on the second (empty) item of a FlexVec of vectors is `None` and changes nothing -/
+example : applyOp (.item 1 .pop) (.flex (.vec u8 L8) L8) ⟨0, [3, 1, 7, 255, 0, 9]⟩ = .ok ⟨.none, [3, 1, 7, 255, 0, 9]⟩ := by decide +kernel
 end FV.Props
